@@ -1346,6 +1346,10 @@ def add_collision_pass_then_rules(rng, prog):
         passes.append(rules)
     prog.tables.append(("pos", passes))
     prog.pass_opts[(len(prog.tables) - 1, 0)] = "{CollisionFix = %d}" % rng.choice([1, 2, 3])
+    for pi in range(1, len(passes)):
+        if rng.random() < 0.5:
+            # automatic kerning on a pass that also has rules (the engine consults the skip bits for such a pass)
+            prog.pass_opts[(len(prog.tables) - 1, pi)] = "{AutoKern = %d}" % rng.choice([1, 1, 2])
     prog.glyph_stmts = list(prog.glyph_stmts) + ["cCollAll = glyphid(2..%d) {collision.flags = 1};" % (prog.nglyphs - 1)]
 
 
